@@ -181,6 +181,7 @@ class MediaInfo(HTMLHandlerBase):
                 status = 404
         if result["error"] is None:
             result.update(mf.toJSON())
+            mf.stream.discard_timing_reference_to(mf.name)
             models.db.session.delete(mf)
             models.db.session.commit()
             result["deleted"] = mfid
@@ -321,6 +322,7 @@ class DeleteMedia(DeleteModelBase):
             "title": current_media_file.name,
             "stream": current_stream.title,
         }
+        current_media_file.stream.discard_timing_reference_to(current_media_file.name)
         models.db.session.delete(current_media_file)
         models.db.session.commit()
         return result
